@@ -133,11 +133,14 @@ func sizes(typ *types.Struct, prefix string, base int64, out []st.Field) []st.Fi
 		return out
 	}
 	field := &out[len(out)-1]
-	if field.Size == 0 {
+	end := base + s.Sizeof(typ)
+	if field.Size == 0 && end > field.End {
+		// The compiler pads a trailing zero-sized field with one
+		// byte, but only in structs that aren't zero-sized.
 		field.Size = 1
 		field.End++
 	}
-	pad := base + s.Sizeof(typ) - field.End
+	pad := end - field.End
 	if pad > 0 {
 		out = append(out, st.Field{
 			IsPadding: true,
